@@ -27,14 +27,8 @@ def main():
     h.build("dev")
     h.build("release")
     print(f"engine R harness built in {h.build_s:.0f}s")
-    try:
-        import engine_k
-        engine_k.warm()
-    except ImportError:
-        pass
-    try:
-        import engine_m
-        engine_m.warm()
-    except ImportError:
-        pass
+    import engine_k
+    engine_k.warm()
+    import engine_m
+    engine_m.warm()
     return 0 if ok else 2
